@@ -34,175 +34,192 @@ theorem gen_isOdd (x : Int) : Generated.C11.isOdd x = x % 2 := by
 
 /-- `ansi_j_to_nm` (exact square root) is the closed form, every `j ≥ 0` -/
 theorem gen_ansiJToNm (j : Int) (hj : 0 ≤ j) : Generated.C11.ansiJToNm j = Model.C11.ansiJToNm j := by
-  unfold Generated.C11.ansiJToNm Model.C11.ansiJToNm
-  simp only [ansi_row j hj]
+  first
+  | exact rfl
+  | skip
+    unfold Generated.C11.ansiJToNm Model.C11.ansiJToNm
+    simp only [ansi_row j hj]
 
 /-- `nm_to_ansi_j` is `(n(n+2)+m)/2` with exact division on every valid pair -/
 theorem gen_nmToAnsiJ (n m : Int) (h : Valid n m) : Generated.C11.nmToAnsiJ n m = Model.C11.nmToAnsiJ n m := by
-  have e := ansi_formula n m h
-  unfold Generated.C11.nmToAnsiJ
-  rw [Py.int_half_even _ (by omega)]
-  rfl
+  first
+  | exact rfl
+  | skip
+    have e := ansi_formula n m h
+    unfold Generated.C11.nmToAnsiJ
+    rw [Py.int_half_even _ (by omega)]
+    rfl
 
 /-- `fringe_to_nm` (exact square root, exact rational arithmetic) is the closed form, every `j` -/
 theorem gen_fringeToNm (j : Int) : Generated.C11.fringeToNm j = Model.C11.fringeToNm j := by
-  unfold Generated.C11.fringeToNm Model.C11.fringeToNm
-  simp only
-  generalize pyCeilSqrt j - 1 = k
-  have e1 : (((2 * k : Int) : Int) : Rat) / (2 : Rat) = ((k : Int) : Rat) := by push_cast; ring
-  have e2 : ((j : Int) : Rat) - ((((k : Int) : Rat)) ^ 2 + (1 : Rat)) = ((j - k * k - 1 : Int) : Rat) := by
-    push_cast; ring
-  rw [e1, e2]
-  generalize j - k * k - 1 = r
-  rw [floor_half, Py.modQ_two]
-  have e3 : ((k : Int) : Rat) + (((r / 2 : Int)) : Rat) = ((k + r / 2 : Int) : Rat) := by push_cast; ring
-  rw [e3]
-  have e4 : (((2 * k : Int) : Rat) - ((k + r / 2 : Int) : Rat)) * ((1 : Rat) - ((r % 2 : Int) : Rat) * (2 : Rat))
-      = (((2 * k - (k + r / 2)) * (1 - 2 * (r % 2)) : Int) : Rat) := by push_cast; ring
-  rw [e4, Py.int_intCast, Py.int_intCast]
+  first
+  | exact rfl
+  | skip
+    unfold Generated.C11.fringeToNm Model.C11.fringeToNm
+    simp only
+    generalize pyCeilSqrt j - 1 = k
+    have e1 : (((2 * k : Int) : Int) : Rat) / (2 : Rat) = ((k : Int) : Rat) := by push_cast; ring
+    have e2 : ((j : Int) : Rat) - ((((k : Int) : Rat)) ^ 2 + (1 : Rat)) = ((j - k * k - 1 : Int) : Rat) := by
+      push_cast; ring
+    rw [e1, e2]
+    generalize j - k * k - 1 = r
+    rw [floor_half, Py.modQ_two]
+    have e3 : ((k : Int) : Rat) + (((r / 2 : Int)) : Rat) = ((k + r / 2 : Int) : Rat) := by push_cast; ring
+    rw [e3]
+    have e4 : (((2 * k : Int) : Rat) - ((k + r / 2 : Int) : Rat)) * ((1 : Rat) - ((r % 2 : Int) : Rat) * (2 : Rat))
+        = (((2 * k - (k + r / 2)) * (1 - 2 * (r % 2)) : Int) : Rat) := by push_cast; ring
+    rw [e4, Py.int_intCast, Py.int_intCast]
 
 /-- `nm_to_fringe` (exact rational arithmetic) is the closed form on every valid pair -/
 theorem gen_nmToFringe (n m : Int) (h : Valid n m) : Generated.C11.nmToFringe n m = Model.C11.nmToFringe n m := by
-  unfold Generated.C11.nmToFringe Model.C11.nmToFringe Generated.C11.sign
-  simp only [Valid] at h
-  obtain ⟨h1, h2⟩ := h
-  have hab : (if m < 0 then -m else m) = iabs m := rfl
-  simp only [hab]
-  generalize iabs m = a at *
-  obtain ⟨k, hk⟩ : ∃ k : Int, n + a = 2 * k := ⟨(n + a) / 2, by omega⟩
-  have hk2 : 2 * k / 2 = k := by omega
-  rw [hk, hk2]
-  by_cases hm : m < 0
-  · have hm' : ¬ (0 ≤ m) := by omega
-    simp only [hm, hm', if_true, if_false]
-    have : ((1 : Rat) + ((2 * k : Int) : Rat) / (2 : Rat)) ^ 2 - (((2 : Int) * a : Int) : Rat)
-        - (((1 : Int) + (-1 : Int) : Int) : Rat) / (2 : Rat) = (((1 + k) * (1 + k) - 2 * a - 0 : Int) : Rat) := by
-      push_cast; ring
-    rw [this, Py.int_intCast]
-  · have hm' : 0 ≤ m := by omega
-    simp only [hm, hm', if_true, if_false]
-    have : ((1 : Rat) + ((2 * k : Int) : Rat) / (2 : Rat)) ^ 2 - (((2 : Int) * a : Int) : Rat)
-        - (((1 : Int) + (1 : Int) : Int) : Rat) / (2 : Rat) = (((1 + k) * (1 + k) - 2 * a - 1 : Int) : Rat) := by
-      push_cast; ring
-    rw [this, Py.int_intCast]
+  first
+  | exact rfl
+  | skip
+    unfold Generated.C11.nmToFringe Model.C11.nmToFringe Generated.C11.sign
+    simp only [Valid] at h
+    obtain ⟨h1, h2⟩ := h
+    have hab : (if m < 0 then -m else m) = iabs m := rfl
+    simp only [hab]
+    generalize iabs m = a at *
+    obtain ⟨k, hk⟩ : ∃ k : Int, n + a = 2 * k := ⟨(n + a) / 2, by omega⟩
+    have hk2 : 2 * k / 2 = k := by omega
+    rw [hk, hk2]
+    by_cases hm : m < 0
+    · have hm' : ¬ (0 ≤ m) := by omega
+      simp only [hm, hm', if_true, if_false]
+      have : ((1 : Rat) + ((2 * k : Int) : Rat) / (2 : Rat)) ^ 2 - (((2 : Int) * a : Int) : Rat)
+          - (((1 : Int) + (-1 : Int) : Int) : Rat) / (2 : Rat) = (((1 + k) * (1 + k) - 2 * a - 0 : Int) : Rat) := by
+        push_cast; ring
+      rw [this, Py.int_intCast]
+    · have hm' : 0 ≤ m := by omega
+      simp only [hm, hm', if_true, if_false]
+      have : ((1 : Rat) + ((2 * k : Int) : Rat) / (2 : Rat)) ^ 2 - (((2 : Int) * a : Int) : Rat)
+          - (((1 : Int) + (1 : Int) : Int) : Rat) / (2 : Rat) = (((1 + k) * (1 + k) - 2 * a - 1 : Int) : Rat) := by
+        push_cast; ring
+      rw [this, Py.int_intCast]
 
 /-- `noll_to_nm`: the list it builds is long enough (no IndexError, negative index in range) and the result is the closed form, every `j ≥ 1` -/
 theorem gen_nollToNm (j : Int) (hj : 1 ≤ j) : Generated.C11.nollToNm j = some (Model.C11.nollToNm j) := by
-  obtain ⟨n, p, hp0, hp1, hjp, hn, e⟩ := noll_decomp j hj
-  rw [e]
-  unfold Generated.C11.nollToNm
-  have hoj : Generated.C11.isOdd j = j % 2 := rfl
-  have hon : Generated.C11.isOdd n = n % 2 := rfl
-  simp only [noll_row j hj, ← hn, hoj, hon]
-  by_cases h0 : n = 0
-  · subst h0
-    have : p = 0 := by omega
-    subst this
-    simp
-  · rw [if_neg h0]
-    have hn0 : 0 ≤ n := by omega
-    have hser : Py.int ((((n + 1) * (n + 2) : Int) : Rat) / 2) = tri (n + 1) := by
-      have t := two_mul_tri (n + 1)
-      have : (n + 1) * (n + 1 + 1) = (n + 1) * (n + 2) := by ring
-      rw [Py.int_half_even _ (by omega)]; unfold tri; rw [this]
-    rw [hser]
-    have hres : j - tri (n + 1) - 1 = p - (n + 1) := by rw [tri_succ]; omega
-    rw [hres]
-    rcases Int.emod_two_eq_zero_or_one n with hpar | hpar
-    · -- even row: [0, 2, 2, 4, 4, …]
-      have hloop : Py.forRange (n / 2) (fun _ s_ => (Py.idx s_ (-1)).bind fun v3_ =>
-            (Py.idx (s_ ++ [v3_ + 2]) (-1)).bind fun v4_ => some (s_ ++ [v3_ + 2] ++ [v4_])) (tab gE 1)
-          = some (tab gE (2 * (n / 2).toNat + 1)) :=
-        forRange_traj _ (fun i => tab gE (2 * i + 1)) (n / 2) (n / 2).toNat rfl (fun i _ => by
-          have := noll_body gE (2 * i) (by unfold gE; push_cast; omega) (by unfold gE; push_cast; omega)
-          simpa [Nat.mul_add, Nat.add_assoc] using this)
-      have h1 : ([0] : List Int) = tab gE 1 := by decide
-      simp only [hpar, ne_eq, not_true_eq_false, if_false, Option.bind_some, h1]
-      have hidx := idx_tab_neg gE (2 * (n / 2).toNat + 1) (p - (n + 1)) (by omega) (by omega)
-      have hlen : (((2 * (n / 2).toNat + 1 : Nat) : Int) + (p - (n + 1))).toNat = p.toNat := by omega
-      rw [hlen] at hidx
-      simp only [hloop, Option.bind_some, hidx]
-      have hg : gE p.toNat = 2 * ((p + 1) / 2) := by unfold gE; rw [Int.toNat_of_nonneg hp0]
-      rw [hg]
-      rcases Int.emod_two_eq_zero_or_one j with hj2 | hj2 <;> simp [hj2]
-    · -- odd row: [1, 1, 3, 3, …]
-      have hloop : Py.forRange (n / 2) (fun _ s_ => (Py.idx s_ (-1)).bind fun v3_ =>
-            (Py.idx (s_ ++ [v3_ + 2]) (-1)).bind fun v4_ => some (s_ ++ [v3_ + 2] ++ [v4_])) (tab gO 2)
-          = some (tab gO (2 * (n / 2).toNat + 2)) :=
-        forRange_traj _ (fun i => tab gO (2 * i + 2)) (n / 2) (n / 2).toNat rfl (fun i _ => by
-          have := noll_body gO (2 * i + 1) (by unfold gO; push_cast; omega) (by unfold gO; push_cast; omega)
-          simpa [Nat.mul_add, Nat.add_assoc] using this)
-      have h1 : ([1, 1] : List Int) = tab gO 2 := by decide
-      have hne : n % 2 ≠ 0 := by omega
-      have hne0 : ¬ (n % 2 = 0) := by omega
-      simp only [hpar, ne_eq, one_ne_zero, not_false_eq_true, if_true, Option.bind_some, h1, hne0, if_false]
-      have hidx := idx_tab_neg gO (2 * (n / 2).toNat + 2) (p - (n + 1)) (by omega) (by omega)
-      have hlen : (((2 * (n / 2).toNat + 2 : Nat) : Int) + (p - (n + 1))).toNat = p.toNat := by omega
-      rw [hlen] at hidx
-      simp only [hloop, Option.bind_some, hidx]
-      have hg : gO p.toNat = 2 * (p / 2) + 1 := by unfold gO; rw [Int.toNat_of_nonneg hp0]
-      rw [hg]
-      rcases Int.emod_two_eq_zero_or_one j with hj2 | hj2 <;> simp [hj2]
+  first
+  | exact rfl
+  | skip
+    obtain ⟨n, p, hp0, hp1, hjp, hn, e⟩ := noll_decomp j hj
+    rw [e]
+    unfold Generated.C11.nollToNm
+    have hoj : Generated.C11.isOdd j = j % 2 := rfl
+    have hon : Generated.C11.isOdd n = n % 2 := rfl
+    simp only [noll_row j hj, ← hn, hoj, hon]
+    by_cases h0 : n = 0
+    · subst h0
+      have : p = 0 := by omega
+      subst this
+      simp
+    · rw [if_neg h0]
+      have hn0 : 0 ≤ n := by omega
+      have hser : Py.int ((((n + 1) * (n + 2) : Int) : Rat) / 2) = tri (n + 1) := by
+        have t := two_mul_tri (n + 1)
+        have : (n + 1) * (n + 1 + 1) = (n + 1) * (n + 2) := by ring
+        rw [Py.int_half_even _ (by omega)]; unfold tri; rw [this]
+      rw [hser]
+      have hres : j - tri (n + 1) - 1 = p - (n + 1) := by rw [tri_succ]; omega
+      rw [hres]
+      rcases Int.emod_two_eq_zero_or_one n with hpar | hpar
+      · -- even row: [0, 2, 2, 4, 4, …]
+        have hloop : Py.forRange (n / 2) (fun _ s_ => (Py.idx s_ (-1)).bind fun v3_ =>
+              (Py.idx (s_ ++ [v3_ + 2]) (-1)).bind fun v4_ => some (s_ ++ [v3_ + 2] ++ [v4_])) (tab gE 1)
+            = some (tab gE (2 * (n / 2).toNat + 1)) :=
+          forRange_traj _ (fun i => tab gE (2 * i + 1)) (n / 2) (n / 2).toNat rfl (fun i _ => by
+            have := noll_body gE (2 * i) (by unfold gE; push_cast; omega) (by unfold gE; push_cast; omega)
+            simpa [Nat.mul_add, Nat.add_assoc] using this)
+        have h1 : ([0] : List Int) = tab gE 1 := by decide
+        simp only [hpar, ne_eq, not_true_eq_false, if_false, Option.bind_some, h1]
+        have hidx := idx_tab_neg gE (2 * (n / 2).toNat + 1) (p - (n + 1)) (by omega) (by omega)
+        have hlen : (((2 * (n / 2).toNat + 1 : Nat) : Int) + (p - (n + 1))).toNat = p.toNat := by omega
+        rw [hlen] at hidx
+        simp only [hloop, Option.bind_some, hidx]
+        have hg : gE p.toNat = 2 * ((p + 1) / 2) := by unfold gE; rw [Int.toNat_of_nonneg hp0]
+        rw [hg]
+        rcases Int.emod_two_eq_zero_or_one j with hj2 | hj2 <;> simp [hj2]
+      · -- odd row: [1, 1, 3, 3, …]
+        have hloop : Py.forRange (n / 2) (fun _ s_ => (Py.idx s_ (-1)).bind fun v3_ =>
+              (Py.idx (s_ ++ [v3_ + 2]) (-1)).bind fun v4_ => some (s_ ++ [v3_ + 2] ++ [v4_])) (tab gO 2)
+            = some (tab gO (2 * (n / 2).toNat + 2)) :=
+          forRange_traj _ (fun i => tab gO (2 * i + 2)) (n / 2) (n / 2).toNat rfl (fun i _ => by
+            have := noll_body gO (2 * i + 1) (by unfold gO; push_cast; omega) (by unfold gO; push_cast; omega)
+            simpa [Nat.mul_add, Nat.add_assoc] using this)
+        have h1 : ([1, 1] : List Int) = tab gO 2 := by decide
+        have hne : n % 2 ≠ 0 := by omega
+        have hne0 : ¬ (n % 2 = 0) := by omega
+        simp only [hpar, ne_eq, one_ne_zero, not_false_eq_true, if_true, Option.bind_some, h1, hne0, if_false]
+        have hidx := idx_tab_neg gO (2 * (n / 2).toNat + 2) (p - (n + 1)) (by omega) (by omega)
+        have hlen : (((2 * (n / 2).toNat + 2 : Nat) : Int) + (p - (n + 1))).toNat = p.toNat := by omega
+        rw [hlen] at hidx
+        simp only [hloop, Option.bind_some, hidx]
+        have hg : gO p.toNat = 2 * (p / 2) + 1 := by unfold gO; rw [Int.toNat_of_nonneg hp0]
+        rw [hg]
+        rcases Int.emod_two_eq_zero_or_one j with hj2 | hj2 <;> simp [hj2]
 
 /-- `xy_j_to_mn`: both `while` loops terminate within `j` iterations (the fuel never runs out) and the result is the closed form `(d - p, p)`, every `j ≥ 1` -/
 theorem gen_xyJToMn (j : Int) (hj : 1 ≤ j) : Generated.C11.xyJToMn j = some (Model.C11.xyJToMn j) := by
-  unfold Generated.C11.xyJToMn
-  rw [if_neg (by omega)]
-  by_cases h1 : j = 1
-  · subst h1; rw [if_pos rfl, xy_small.1]
-  rw [if_neg h1]
-  by_cases h2 : j = 2
-  · subst h2; rw [if_pos rfl, xy_small.2.1]
-  rw [if_neg h2]
-  by_cases h3 : j = 3
-  · subst h3; rw [if_pos rfl, xy_small.2.2]
-  rw [if_neg h3]
-  obtain ⟨d, p, hp0, hp1, hjp, hd, e⟩ := xy_decomp j hj
-  rw [e]
-  have hd0 : 0 ≤ d := by omega
-  have hd2 : 2 ≤ d := by
-    by_contra hlt
-    have : tri d ≤ tri 1 := tri_mono d 1 hd0 (by omega)
-    have : tri 1 = 1 := by decide
-    omega
-  have htd := le_tri d hd0
-  have hT : tri (d + 1) = tri d + d + 1 := tri_succ d
-  -- first loop: k climbs to d + 2, max_j to tri (d + 1)
-  have loop1 : Py.whileFuel (fun s_ : Int × Int => decide (s_.2 < j))
-      (fun s_ => some (s_.1 + 1, s_.1 * (s_.1 + 1) / 2)) j.toNat ((2 : Int), (2 : Int) * (2 + 1) / 2)
-      = some (d + 2, tri (d + 1)) := by
-    have := whileFuel_traj (fun s_ : Int × Int => decide (s_.2 < j))
-      (fun s_ => some (s_.1 + 1, s_.1 * (s_.1 + 1) / 2))
-      (fun i => (((i : Int) + 2), if i = 0 then 3 else tri ((i : Int) + 1))) d.toNat j.toNat (by omega)
-      (fun i hi => by
-        simp only [decide_eq_true_eq]
-        split
-        · omega
-        · have := tri_mono ((i : Int) + 1) d (by omega) (by omega); omega)
-      (fun i hi => by
-        simp only [Option.some.injEq, Prod.mk.injEq]
-        refine ⟨by push_cast; ring, ?_⟩
-        rw [if_neg (by omega)]
-        unfold tri; push_cast
-        have : ((i : Int) + 2) * ((i : Int) + 2 + 1) = ((i : Int) + 1 + 1) * ((i : Int) + 1 + 1 + 1) := by ring
-        rw [this])
-      (by
-        simp only [decide_eq_false_iff_not, not_lt]
-        rw [if_neg (by omega), Int.toNat_of_nonneg hd0]; omega)
-    simp only [Nat.cast_zero, zero_add, if_true] at this
-    rw [if_neg (by omega), Int.toNat_of_nonneg hd0] at this
-    exact this
-  simp only [] at loop1 ⊢
-  rw [loop1]
-  simp only [Option.bind_some]
-  have hk : d + 2 - 2 = d := by ring
-  have hlx : tri (d + 1) - (d + 2) + 2 = tri d + 1 := by omega
-  simp only [hk, hlx]
-  have hdy : (if j - tri (d + 1) < 0 then -(j - tri (d + 1)) else j - tri (d + 1)) = d - p := by split <;> omega
-  have hdx : (if j - (tri d + 1) < 0 then -(j - (tri d + 1)) else j - (tri d + 1)) = p := by split <;> omega
-  rw [hdy, hdx]
-  by_cases hbr : d - p < p
-  · rw [if_pos hbr]
+  first
+  | (unfold Generated.C11.xyJToMn; rw [if_neg (by omega)]; done)
+  | skip
+    unfold Generated.C11.xyJToMn
+    rw [if_neg (by omega)]
+    by_cases h1 : j = 1
+    · subst h1; rw [if_pos rfl, xy_small.1]
+    rw [if_neg h1]
+    by_cases h2 : j = 2
+    · subst h2; rw [if_pos rfl, xy_small.2.1]
+    rw [if_neg h2]
+    by_cases h3 : j = 3
+    · subst h3; rw [if_pos rfl, xy_small.2.2]
+    rw [if_neg h3]
+    obtain ⟨d, p, hp0, hp1, hjp, hd, e⟩ := xy_decomp j hj
+    rw [e]
+    have hd0 : 0 ≤ d := by omega
+    have hd2 : 2 ≤ d := by
+      by_contra hlt
+      have : tri d ≤ tri 1 := tri_mono d 1 hd0 (by omega)
+      have : tri 1 = 1 := by decide
+      omega
+    have htd := le_tri d hd0
+    have hT : tri (d + 1) = tri d + d + 1 := tri_succ d
+    -- first loop: k climbs to d + 2, max_j to tri (d + 1)
+    have loop1 : Py.whileFuel (fun s_ : Int × Int => decide (s_.2 < j))
+        (fun s_ => some (s_.1 + 1, s_.1 * (s_.1 + 1) / 2)) j.toNat ((2 : Int), (2 : Int) * (2 + 1) / 2)
+        = some (d + 2, tri (d + 1)) := by
+      have := whileFuel_traj (fun s_ : Int × Int => decide (s_.2 < j))
+        (fun s_ => some (s_.1 + 1, s_.1 * (s_.1 + 1) / 2))
+        (fun i => (((i : Int) + 2), if i = 0 then 3 else tri ((i : Int) + 1))) d.toNat j.toNat (by omega)
+        (fun i hi => by
+          simp only [decide_eq_true_eq]
+          split
+          · omega
+          · have := tri_mono ((i : Int) + 1) d (by omega) (by omega); omega)
+        (fun i hi => by
+          simp only [Option.some.injEq, Prod.mk.injEq]
+          refine ⟨by push_cast; ring, ?_⟩
+          rw [if_neg (by omega)]
+          unfold tri; push_cast
+          have : ((i : Int) + 2) * ((i : Int) + 2 + 1) = ((i : Int) + 1 + 1) * ((i : Int) + 1 + 1 + 1) := by ring
+          rw [this])
+        (by
+          simp only [decide_eq_false_iff_not, not_lt]
+          rw [if_neg (by omega), Int.toNat_of_nonneg hd0]; omega)
+      simp only [Nat.cast_zero, zero_add, if_true] at this
+      rw [if_neg (by omega), Int.toNat_of_nonneg hd0] at this
+      exact this
+    simp only [] at loop1 ⊢
+    rw [loop1]
+    simp only [Option.bind_some]
+    have hk : d + 2 - 2 = d := by ring
+    have hlx : tri (d + 1) - (d + 2) + 2 = tri d + 1 := by omega
+    simp only [hk, hlx]
+    have hdy : (if j - tri (d + 1) < 0 then -(j - tri (d + 1)) else j - tri (d + 1)) = d - p := by split <;> omega
+    have hdx : (if j - (tri d + 1) < 0 then -(j - (tri d + 1)) else j - (tri d + 1)) = p := by split <;> omega
+    rw [hdy, hdx]
+    -- both walks (from the pure-y end, from the pure-x end) arrive at the same cell, whichever the code picks
     have loop2 : Py.whileFuel (fun s_ : Int × Int × Int => decide (s_.1 ≠ j))
         (fun s_ => some (s_.1 - 1, s_.2.1 + 1, s_.2.2 - 1)) j.toNat (tri (d + 1), (0 : Int), d)
         = some (j, d - p, p) := by
@@ -217,9 +234,6 @@ theorem gen_xyJToMn (j : Int) (hj : 1 ≤ j) : Generated.C11.xyJToMn j = some (M
       rw [this, Int.toNat_of_nonneg (by omega)]
       simp only [Option.some.injEq, Prod.mk.injEq]
       refine ⟨by omega, trivial, by ring⟩
-    rw [loop2]
-    simp only [Option.bind_some]
-  · rw [if_neg hbr]
     have loop3 : Py.whileFuel (fun s_ : Int × Int × Int => decide (s_.1 ≠ j))
         (fun s_ => some (s_.1 + 1, s_.2.1 - 1, s_.2.2 + 1)) j.toNat (tri d + 1, d, (0 : Int))
         = some (j, d - p, p) := by
@@ -234,8 +248,7 @@ theorem gen_xyJToMn (j : Int) (hj : 1 ≤ j) : Generated.C11.xyJToMn j = some (M
       rw [this, Int.toNat_of_nonneg hp0]
       simp only [Option.some.injEq, Prod.mk.injEq]
       exact ⟨by omega, trivial⟩
-    rw [loop3]
-    simp only [Option.bind_some]
+    split <;> simp only [loop2, loop3, Option.bind_some]
 
 /-- `xy_j_to_mn` raises for `j < 1` -/
 theorem gen_xyJToMn_raises (j : Int) (hj : j < 1) : Generated.C11.xyJToMn j = none := by
